@@ -69,6 +69,19 @@ CHECKS = {
             'Trusted: Lean kernel; pandas aggregates (tied by cx.calc); rexpy output replaced by indices. Two known '
             'findings (no_duplicates for bool / date fields). SQLite discovery is exercised by the C08 check.',
             'DESIGN.md 4 C07'),
+    'C09': ('Lean 4 theorems over a dictionary-level model of to_dict / initialize_from_dict + correspondence',
+            'Kernel-checked theorems: str(datetime) is re-read as the same datetime by get_date (with and without '
+            'fractional seconds); loading the dictionary of a well-formed constraint set gives back the same '
+            'constraints (every kind, precision-qualified and date-valued bounds, any names / strings), with no warning '
+            'or error, and the reloaded set serialises to the identical dictionary for any number of cycles; the same '
+            'constraint is held for every (field, kind), hence identical verdicts; entries of unknown kinds and # keys '
+            'do not affect the loaded constraints; strip_lines leaves no trailing whitespace, is the identity on text '
+            'without any, and keeps the line structure. The model (from_dict, to_dict, get_date, strip_lines) is tied to '
+            'the code by differential runs; valid UTF-8 JSON, text identity over write/load cycles through real files, '
+            'the three entry points and verdict preservation on generated frames are the oracle.',
+            'Trusted: Lean kernel; json.dumps / json.loads are not modelled (contract loads(dumps x) = x). One known '
+            'finding (datetime.date bounds).',
+            'DESIGN.md 4 C09'),
     'C10': ('Lean 4 theorems over a model of the regeneration decision + model/implementation correspondence',
             'Kernel-checked theorems: over every history of set_regeneration calls the decision for a kind is the last '
             'setting for it, else the last setting for all kinds, else no; kinds named on a command line (C19 meaning) '
